@@ -52,9 +52,12 @@ func (e *Envelope) SetPayload(payload any) error {
 	encodedBytes = escapeControlCharacters(encodedBytes)
 
 	e.payload = payload
+	// An envelope that is not signed yet has an empty list of signatures, so
+	// that it can be loaded again after it was dumped
 	e.envelope = &dsse.Envelope{
 		Payload:     base64.StdEncoding.EncodeToString(encodedBytes),
 		PayloadType: PayloadType,
+		Signatures:  []dsse.Signature{},
 	}
 
 	return nil
